@@ -35,7 +35,7 @@ EXPLANATION = (
     "_fwdRefs->find(id) only; expansion under the .second of the insert into the result set; the cursor advances every iteration. "
     "(R5) in every function that attaches a comment string to an instance (AddP21Comment/PrependP21Comment of a local string) "
     "each ReadTokenSeparator call from which the attach is reachable passes the address of that string. "
-    "Not decided: equality of the index with the eager population, offsets, serialisation equality, complex instances.")
+    "(R2b) while the end of a comment is searched the lazy scanner neither skips \"strings\" nor recurses on a further \"/*\". (R3b) a data instance is entered into the loaded set before its attributes are read (reference cycles). (R4b) the work list of instanceDependencies only grows at its end unless the cursor is not advanced afterwards. (R6) every C library integer conversion in the reader libraries uses base 10. Not decided: equality of the index with the eager population, offsets, serialisation equality, complex instances.")
 
 TABLES = {"lazyInstMgr::_instanceTypes", "lazyInstMgr::_instanceStreamPos", "lazyInstMgr::_fwdInstanceRefs", "lazyInstMgr::_revInstanceRefs"}
 MUT = {"insert", "erase", "clear", "remove", "operator[]"}
